@@ -170,7 +170,7 @@ class Collections:
         if name in ("new", "with_capacity", "default") and not any(is_seq(it.deref_val(a)) for a in args):
             if "vec::Vec" in full and "::new" in full or ("vec::Vec" in full and name == "with_capacity"):
                 return seq("vec", [])
-            if "BTreeSet" in full and name == "new":
+            if ("BTreeSet" in full or "HashSet" in full) and ("::new" in full or "::default" in full or "::with_capacity" in full):
                 return seq("set", [])
         # integer ranges are iterators: `a..b` is an aggregate of std::ops::Range, `a..=b` comes from RangeInclusive::new
         if name == "new" and "RangeInclusive" in full and len(args) == 2 and all(E.is_int(it.deref_val(a)) for a in args):
